@@ -18,10 +18,23 @@ type Params struct {
 	Late       int  // sends issued after the first episode has settled
 	Request    bool // a requester on A asks an echo actor on B
 	Actor      bool // one sender is an actor on A (two c.Send from one Receive)
+	SelfSender bool // with WithSender: the sender PID given is the target PID itself ("reply to yourself")
+	NoEvents   bool // controlled leg: the sending node's event stream is detached too (the oracle then only looks at deliveries)
+	Restart    bool // after the early messages arrived the peer stops (connection lost) and a new engine comes up on the same address; then Late sends
 }
 
 func (p Params) String() string {
-	return fmt.Sprintf("T%dx%dtg%dsnd%vfail%dlate%dreq%vact%v", p.Senders, p.PerT, p.Targets, p.WithSender, p.FailDials, p.Late, p.Request, p.Actor)
+	s := fmt.Sprintf("T%dx%dtg%dsnd%vfail%dlate%dreq%vact%v", p.Senders, p.PerT, p.Targets, p.WithSender, p.FailDials, p.Late, p.Request, p.Actor)
+	if p.SelfSender {
+		s += "self"
+	}
+	if p.Restart {
+		s += "restart"
+	}
+	if p.NoEvents {
+		s += "noev"
+	}
+	return s
 }
 
 func (p Params) Down() bool { return p.FailDials >= 3 }
@@ -34,6 +47,9 @@ var Up = []Params{
 	{Senders: 1, PerT: 2, Targets: 1, FailDials: 2, WithSender: true},
 	{Senders: 1, PerT: 1, Targets: 1, Request: true},
 	{Senders: 1, PerT: 1, Targets: 1, Actor: true},
+	{Senders: 1, PerT: 3, Targets: 2, WithSender: true, SelfSender: true},
+	{Senders: 1, PerT: 1, Targets: 1, Late: 1, Restart: true},
+	{Senders: 1, PerT: 1, Targets: 1, Late: 1, Restart: true, NoEvents: true},
 }
 
 var Dn = []Params{
@@ -44,6 +60,8 @@ var Dn = []Params{
 }
 
 var UpLarge = append([]Params{
+	{Senders: 1, PerT: 2, Targets: 1, Late: 2, Restart: true},
+	{Senders: 2, PerT: 1, Targets: 2, Late: 1, Restart: true, WithSender: true},
 	{Senders: 3, PerT: 1, Targets: 2, WithSender: true},
 	{Senders: 2, PerT: 3, Targets: 2, WithSender: true},
 	{Senders: 2, PerT: 1, Targets: 1, Request: true, Actor: true},
@@ -59,6 +77,9 @@ type Delivery struct {
 // thread the sequence of message ids with their senders, the dead-lettered ids, the number of
 // unreachable events and the request's result.
 func Record(p Params, deliveries []Delivery, dead []string, unreachable int, reqResult string) string {
+	if p.NoEvents {
+		unreachable, dead = 0, nil // not observed in the controlled leg of this variant
+	}
 	per := map[string][]string{}
 	for _, d := range deliveries {
 		th := d.ID
